@@ -821,10 +821,11 @@ func (s *stream) apply(c *Cmd) error {
 					}
 					if ok {
 						vals = append(vals, f)
-					} else if a.Fn == "count" && len(c.By) > 0 {
-						// count(field) over a group with nulls belongs to the aggregation property (C04); observed:
-						// with a by clause the engine counts the events, not the non-null values.
-						return abstainf("count(field) over nulls with a by clause")
+					} else if len(c.By) > 0 {
+						// Aggregates over a group with nulls belong to the aggregation property (C04). Observed:
+						// with a by clause count(field) counts the events and avg(field) divides by the number
+						// of events, not of non-null values.
+						return abstainf("aggregate over nulls with a by clause")
 					}
 				}
 				v, err := aggregate(a.Fn, vals, len(g.rows), a.Field != "")
@@ -859,6 +860,9 @@ func runModel(tb *Table, chain []*Cmd) ([]Row, error) {
 	for _, c := range chain {
 		if err := s.apply(c); err != nil {
 			return nil, fmt.Errorf("%s: %w", c.Op, err)
+		}
+		if len(dropEmpty(s.rows)) != len(s.rows) {
+			return nil, abstainf("a row left without any field")
 		}
 	}
 	return dropEmpty(s.rows), nil
